@@ -152,6 +152,9 @@ def jStrs (x : PyJ) : Except LErr (List String) :=
 structure Files where
   json : String → Except LErr PyJ
   yaml : String → Except LErr PyJ
+  /-- `zipfile.ZipFile(path)`, the first member whose name ends in `.eom`, `archive.read`, `ET.fromstring`:
+  the parsed model of a securiCAD archive -/
+  eom : String → Except LErr Legacy.ScadDoc
 
 /-! ### the classes of `LanguageClassesFactory` -/
 
@@ -256,6 +259,27 @@ abbrev ScadEv := String × String
 def scadEvidence (o : Legacy.ScadObject) : List ScadEv := o.defenses
 /-- `subchild.iter('evidenceDistribution')`, `distrib.iter('parameters')`: one each -/
 def scadSub (e : ScadEv) : List ScadEv := [e]
+
+/-- the `LanguageGraph` handed to the securiCAD loader: its method `get_association_by_fields_and_assets`
+(translated in the domain `lang`: `GenLang/Assocs.lean`, tied to `LG.lookupAssoc` in `TieLangGraph.lean`) is a
+parameter here; a found `LanguageGraphAssociation` is the declaration it was built from (`.name`,
+`.left_field.asset.name` = `leftAsset`, `.right_field.asset.name` = `rightAsset`) -/
+structure LangGraphView where
+  get_association_by_fields_and_assets : String → String → String → String → Except LErr (Option AssocDecl)
+
+/-- `lang_classes_factory.get_association_by_signature(name, left, right)`: the name of the generated class.
+`LookupError` when no association is called `name`; when several are, the class `name_left_right`, else
+`name_right_left`, else `LookupError`; otherwise `name` itself.  (It never returns `None`.) -/
+def facAssocBySignature (fac : Factory) (name left right : String) : Except LErr (Option String) :=
+  let cands := fac.L.assocs.filter (·.name = name)
+  if cands.isEmpty then .error (.py .lookupError) else
+  if cands.length > 1 then
+    let full := name ++ "_" ++ left ++ "_" ++ right
+    let flipped := name ++ "_" ++ right ++ "_" ++ left
+    if cands.any (fun a => name ++ "_" ++ a.leftAsset ++ "_" ++ a.rightAsset = full) then .ok (some full)
+    else if cands.any (fun a => name ++ "_" ++ a.leftAsset ++ "_" ++ a.rightAsset = flipped) then .ok (some flipped)
+    else .error (.py .lookupError)
+  else .ok (some name)
 
 /-- `name[0].lower() + name[1:]`; `IndexError` on the empty string -/
 def pyDecap (s : String) : Except LErr String :=
